@@ -49,9 +49,22 @@ static void do_sort(const unsigned *idx, size_t n, int ev)
 	for (size_t k = 0; k < n; k++) fprintf(o, "%s%u", k ? "," : "", idx[k] + 1);
 	fputs("]", o);
 	if (ev) {
+		/* the other fields of an event are filled with values that have nothing to do with the position in the input (a
+		 * permutation for the oid, arbitrary durations and states): an ordering that looks at anything but the start shows */
+		static unsigned perm[8192], inv[8192]; static unsigned long long lcg = 88172645463325252ULL;
 		memset(ea, 0, n * sizeof(*ea));
-		for (size_t k = 0; k < n; k++) { ea[k].from = keys[idx[k]]; ea[k].oid = (echs_oid_t)(k + 1); }
+		for (size_t k = 0; k < n; k++) perm[k] = (unsigned)k;
+		for (size_t k = n; k > 1; k--) { lcg = lcg * 6364136223846793005ULL + 1442695040888963407ULL; size_t j = (size_t)((lcg >> 33) % k); unsigned t = perm[k - 1]; perm[k - 1] = perm[j]; perm[j] = t; }
+		for (size_t k = 0; k < n; k++) inv[perm[k]] = (unsigned)k;
+		for (size_t k = 0; k < n; k++) {
+			ea[k].from = keys[idx[k]]; ea[k].oid = (echs_oid_t)(perm[k] + 1);
+			ea[k].dur.d = (int64_t)((perm[k] * 2654435761u) % 100000u); ea[k].sts = (perm[k] * 40503u) & 0xffu;
+		}
 		ND_GUARD(echs_event_sort(ea, n));
+		if (!nd_crashed) for (size_t k = 0; k < n; k++) {
+			/* back to the position the element had in the input (an oid that was never handed in is reported as position 0) */
+			uintptr_t oi = (uintptr_t)ea[k].oid; ea[k].oid = (echs_oid_t)((oi >= 1 && oi <= n) ? inv[oi - 1] + 1 : 0);
+		}
 	} else {
 		for (size_t k = 0; k < n; k++) ia[k] = keys[idx[k]];
 		ND_GUARD(echs_instant_sort(ia, n));
